@@ -388,8 +388,16 @@ theorem flush_txns_ne {s : Sess} (hne : s.txns ≠ []) : s.flush.txns ≠ [] := 
 theorem rinv_load {s : Sess} (h : RInv s) (o : Nat) : RInv (s.load o).1 := by
   unfold Sess.load
   simp only []
-  have h1 := rinv_flush (rinv_autobegin h)
-  have hne := flush_txns_ne (autobegin_spec s).1
+  have h1 : RInv s.autobegin.autoflushNow := by
+    unfold Sess.autoflushNow
+    split
+    · exact rinv_flush (rinv_autobegin h)
+    · exact rinv_autobegin h
+  have hne : s.autobegin.autoflushNow.txns ≠ [] := by
+    unfold Sess.autoflushNow
+    split
+    · exact flush_txns_ne (autobegin_spec s).1
+    · exact (autobegin_spec s).1
   split
   · exact rinv_cframe h1 (frame_setObj _ o _).toC hne
   · exact h1
@@ -658,10 +666,11 @@ theorem step_rinv {s : Sess} (h : RInv s) (op : SOp) : RInv (s.step op).1 := by
         rw [e] at r2; simp at r2; omega
       exact (rinv_rollbackTop r1 hne).1
     · exact h
+  | setAutoflush b => exact ⟨h.1, h.2⟩
 
-/-- **session_rows_invariant**: for EVERY history -/
-theorem session_rows_invariant (eoc : Bool) (ops : List SOp) :
-    RInv ((Sess.init eoc).run ops) := by
+/-- **session_rows_invariant**: for EVERY history, with autoflush on or off -/
+theorem session_rows_invariant (eoc : Bool) (ops : List SOp) (af : Bool := true) :
+    RInv ((Sess.init eoc af).run ops) := by
   have key : ∀ (ops : List SOp) (s : Sess), RInv s → RInv (s.run ops) := by
     intro ops
     induction ops with
@@ -671,12 +680,12 @@ theorem session_rows_invariant (eoc : Bool) (ops : List SOp) :
 
 /-- after `Session.commit()` / `Session.rollback()` / `Session.close()` from any reachable
     state no transaction is left and the session's connection sees the committed rows -/
-theorem session_end_states (eoc : Bool) (ops : List SOp) :
-    let s := (Sess.init eoc).run ops
+theorem session_end_states (eoc : Bool) (ops : List SOp) (af : Bool := true) :
+    let s := (Sess.init eoc af).run ops
     (s.rollback.txns = [] ∧ s.rollback.rows = s.rollback.committed) ∧
     (s.txns ≠ [] → s.commit.txns = [] ∧ s.commit.rows = s.commit.committed) := by
   intro s
-  have h := session_rows_invariant eoc ops
+  have h := session_rows_invariant eoc ops af
   refine ⟨?_, fun hne => ?_⟩
   · obtain ⟨r1, r2⟩ := rinv_repeat Sess.rollbackTop (fun s hs hne => rinv_rollbackTop hs hne)
       s.txns.length s h (Nat.le_refl _)
@@ -696,6 +705,95 @@ theorem session_end_states (eoc : Bool) (ops : List SOp) :
     rw [e]
     have : (repeatN s.txns.length Sess.commitTop s).txns = [] := List.eq_nil_of_length_eq_zero (by omega)
     exact ⟨this, r1.2 this⟩
+
+/-! ## what is accounted to a savepoint: only work done after it began
+
+`begin_nested()` writes everything that is pending in the enclosing scope BEFORE the
+SAVEPOINT — an unconditional flush, not an autoflush: the `autoflush` setting (the
+`Session(autoflush=False)` option, a `no_autoflush` block) plays no part. -/
+
+theorem flushObj_withAf (s : Sess) (b : Bool) (o : Nat) :
+    (s.withAf b).flushObj o = (s.flushObj o).withAf b := by
+  obtain ⟨objs, new, marked, imap, txns, nextH, ended, rows, committed, eoc, af⟩ := s
+  unfold Sess.flushObj
+  simp only [Sess.withAf, Sess.obj, Sess.modTop, Sess.setObj]
+  by_cases h1 : marked.contains o = true
+  · rw [if_pos h1, if_pos h1]
+    cases hk : (objs.getD o default).key with
+    | none => rfl
+    | some k => cases txns <;> rfl
+  · rw [if_neg h1, if_neg h1]
+    by_cases h2 : new.contains o = true
+    · rw [if_pos h2, if_pos h2]; cases txns <;> rfl
+    · rw [if_neg h2, if_neg h2]
+      by_cases h3 : (imap.contains o && (objs.getD o default).modified) = true
+      · simp only [h3, ↓reduceIte]
+        cases hk : (objs.getD o default).key with
+        | none => rfl
+        | some k => cases txns <;> rfl
+      · simp only [h3, Bool.false_eq_true, ↓reduceIte]
+
+theorem flushAll_withAf (b : Bool) : ∀ (l : List Nat) (s : Sess),
+    flushAll l (s.withAf b) = (flushAll l s).withAf b := by
+  intro l
+  induction l with
+  | nil => intro s; rfl
+  | cons o os ih => intro s; simp only [flushAll]; rw [flushObj_withAf, ih]
+
+theorem flush_withAf (s : Sess) (b : Bool) : (s.withAf b).flush = s.flush.withAf b := by
+  unfold Sess.flush
+  have hu : (s.withAf b).unclean = s.unclean := rfl
+  rw [hu]
+  split
+  · have ha : (s.withAf b).autobegin = s.autobegin.withAf b := by
+      unfold Sess.autobegin Sess.withAf; split <;> rfl
+    rw [ha]
+    exact flushAll_withAf b _ _
+  · rfl
+
+/-- **begin_nested_ignores_autoflush**: for EVERY session state, begin_nested() does exactly
+    the same with autoflush off as with autoflush on — in particular the same rows are written
+    before the SAVEPOINT and the same objects are registered with the ENCLOSING transaction. -/
+theorem begin_nested_ignores_autoflush (s : Sess) (b : Bool) :
+    ((s.withAf b).step .beginNested).1 = ((s.step .beginNested).1).withAf b := by
+  have ha : (s.withAf b).autobegin = s.autobegin.withAf b := by
+    unfold Sess.autobegin Sess.withAf; split <;> rfl
+  simp only [Sess.step]
+  rw [ha, flush_withAf]
+
+/-- **savepoint_scope_starts_empty**: the transaction object pushed by begin_nested() has
+    nothing accounted to it (`_new`, `_dirty`, `_deleted`, `_key_switches` empty) and
+    remembers the rows as they are AFTER the enclosing scope's pending work was written;
+    the enclosing transactions are the ones the flush registered that work with. -/
+theorem savepoint_scope_starts_empty (s : Sess) :
+    let s' := (s.step .beginNested).1
+    ∃ t rest, s'.txns = t :: rest ∧ rest = s.autobegin.flush.txns ∧ t.nested = true ∧
+      t.new = [] ∧ t.dirty = [] ∧ t.deleted = [] ∧ t.switches = [] ∧ t.saveRows = s'.rows ∧
+      s'.rows = s.autobegin.flush.rows := by
+  simp only [Sess.step]
+  exact ⟨_, _, rfl, rfl, rfl, rfl, rfl, rfl, rfl, rfl, trivial⟩
+
+/-- a flush registers objects with the INNERMOST transaction only: whatever a flush inside a
+    savepoint touches, the collections of the enclosing transactions stay as they are -/
+theorem flushObj_outer_untouched (s : Sess) (o : Nat) : (s.flushObj o).txns.tail = s.txns.tail := by
+  have key : ∀ (s : Sess) (f : STx → STx), (s.modTop f).txns.tail = s.txns.tail := by
+    intro s f; unfold Sess.modTop; split <;> simp_all
+  unfold Sess.flushObj
+  simp only []
+  split
+  · split
+    · show ((Sess.modTop _ _).setObj _ _).txns.tail = _
+      exact key _ _
+    · rfl
+  · split
+    · show ((Sess.modTop _ _).setObj _ _).txns.tail = _
+      exact key _ _
+    · split
+      · split
+        · show ((Sess.modTop _ _).setObj _ _).txns.tail = _
+          exact key _ _
+        · rfl
+      · rfl
 
 /-! ## where the full statement fails (findings F20, F21, F23) -/
 
@@ -758,5 +856,14 @@ example : (s0.run sampleOps).committed = [(1, 10)] := by decide
 /-- the hypotheses of `root_rollback_expires_all` / `nested_rollback_restores_rows` are met
     by reachable states with pending, dirty, deleted and key-switched objects -/
 example : ((s0.run (sampleOps.take 12)).txns.map (·.nested)) = [true, true, false] := by decide
+
+/-- autoflush off: work pending when begin_nested() is called is written before the SAVEPOINT
+    and registered with the root transaction; rolling the savepoint back (after a flush inside
+    it) discards only object #2, and the outer commit persists rows 1=11 and 2=20 -/
+def afOps : List SOp :=
+  [.add 1 10, .commit, .setV 0 11, .add 2 20, .beginNested, .add 3 30, .flush, .tRollback 2]
+example : ((Sess.init true false).run afOps).rows = [(1, 11), (2, 20)] ∧
+    ((Sess.init true false).run afOps).txns.map (fun t => (t.h, t.new, t.dirty)) = [(1, [1], [0])] ∧
+    ((Sess.init true false).run (afOps ++ [.commit])).committed = [(1, 11), (2, 20)] := by decide
 
 end SaVerif.Props.C33
